@@ -546,7 +546,7 @@ def main():
            ({'layers': [['solid', False, False]], 'solve_for': ['tidal', 'loading', 'free']}, 'solid-3types'),
            ({'layers': [['solid', True, False]], 'solve_for': ['tidal'], 'nondimensionalize': False}, 'solid-dimensional'),
            ({'layers': [['solid', False, False]], 'solve_for': ['tidal'], 'max_num_steps': 5}, 'step-budget'),
-           ({'solve_for': ['bogus']}, 'invalid-solve_for'), ({'solve_for': ['tidal'] * 6}, 'too-many-solve_for'), ({'break': 'nan_density'}, 'nan-bulk-density'), ({'break': 'inf_density'}, 'inf-bulk-density'), ({'break': 'nan_frequency'}, 'nan-frequency'),
+           ({'solve_for': ['bogus']}, 'invalid-solve_for'), ({'solve_for': ['tidal'] * 6}, 'too-many-solve_for'), ({'break': 'nan_density'}, 'nan-bulk-density'), ({'break': 'inf_density'}, 'inf-bulk-density'), ({'break': 'zero_density'}, 'zero-bulk-density'), ({'break': 'nan_frequency'}, 'nan-frequency'),
            ({'layers': [['solid', False, False]], 'solve_for': ['tidal'], 'expected_size': 1}, 'expected-size-1'), ({'layers': [['solid', False, False]], 'solve_for': ['tidal'], 'expected_size': 2}, 'expected-size-2'),
            ({'layers': [['solid', True, False], ['solid', True, False]], 'break': 'thin_layer'}, 'thin-layer'), ({'break': 'bad_layer_type'}, 'bad-layer-type'), ({'break': 'bad_method'}, 'bad-method'),
            ({'layers': [['solid', False, False]], 'solve_for': ['tidal'], 'max_num_steps': 5, 'raise_on_fail': True}, 'step-budget-raise')]
@@ -560,6 +560,12 @@ def main():
     import c02
     for (t, s) in [(0, False), (1, False), (1, True)]:
         jobs.append((c02.job_surface, {'ltype': t, 'static': s, 'incomp': False}))
+    # termination and extents of the interface kernels of the collapse phase, for every pair of layer kinds (their while loops carry an iteration budget: a loop whose counter does
+    # not advance is a hang of the solver)
+    for lo in c02.kinds():
+        for up in c02.kinds():
+            jobs.append((c02.job_interface, {'lower': lo, 'upper': up, 'inc_l': False, 'inc_u': False}))
+    jobs.append((c02.job_collapse_y3, {}))
     import c03
     jobs.append((c03.job_roundtrip, {}))
     meta = {
@@ -569,7 +575,7 @@ def main():
                        'failure paths raise under raise_on_fail. Bad exits are replayed on the REAL compiled solver in a subprocess (exception, arrays before/after, exit status). '
                        'Declared stack extents of the surface kernel (C02 obligations) and redim(nondim(x)) = x (C03) are included; RadialSolverSolution accessors are executed with success = False.',
         'bounds': 'all paths of the control skeleton with loops unrolled 0/1 times (%s); dynamic runs: 1-2 layer stacks incl. liquid surface layers, validation failures, step-budget failure.' % ('thorough adds eight 3-layer stacks' if TIER == 'thorough' else 'quick'),
-        'outside': 'hangs inside CyRK; NaN/inf material values inside the integrator; interpreter-level malformed arguments beyond the checks present in the source; leaks are reported separately from memory-safety.',
+        'outside': 'hangs inside CyRK (the while loops of TidalPy\'s own interface / collapse kernels are run with an iteration budget of 200000); NaN/inf material values inside the integrator; interpreter-level malformed arguments beyond the checks present in the source; leaks are reported separately from memory-safety.',
         'assumptions': ['opaque branch conditions are independent (over-approximation; every bad exit is confirmed on the real solver where a recipe exists)'],
         'stubs': ['CyRK integrator, numpy I/O not modelled (skeleton only)'],
     }
